@@ -4,6 +4,39 @@
 use super::*;
 use crate::verif_common::*;
 
+// @verif props=C14 tier=quick cap=900 group=core fns=Instructions::{add,add_with_line,add_line_record,get_line}
+/// The instruction -> line side table every run-time error location is read from: four instructions are added
+/// with ANY four line numbers (equal neighbours are merged by the builder, a line-less instruction in between
+/// inherits the previous line); for EVERY pc the reported line is the line the instruction was added with, an
+/// instruction added without a line reports the line of its predecessor, and a pc past the end reports the
+/// last line - never a line that no instruction carries.
+#[kani::proof]
+#[kani::unwind(7)]
+fn c14_line_table_maps_pc_to_its_line() {
+    let l: [u16; 4] = kani::any();
+    let mut ins = Instructions::new("t", "");
+    assert!(ins.get_line(0).is_none());
+    let p0 = ins.add_with_line(Instruction::Swap, l[0]);
+    let p1 = ins.add_with_line(Instruction::DupTop, l[1]);
+    let p2 = ins.add(Instruction::DiscardTop);
+    let p3 = ins.add_with_line(Instruction::Swap, l[2]);
+    let p4 = ins.add_with_line(Instruction::Swap, l[3]);
+    assert!(p0 == 0 && p1 == 1 && p2 == 2 && p3 == 3 && p4 == 4);
+    let pc: u32 = kani::any();
+    kani::assume(pc <= 6);
+    let want = match pc {
+        0 => l[0],
+        1 | 2 => l[1],
+        3 => l[2],
+        _ => l[3],
+    };
+    assert!(ins.get_line(pc) == Some(want as usize));
+    kani::cover!(l[0] == l[1] && l[1] != l[2] && pc == 3);
+    kani::cover!(l[1] > l[2] && pc == 2);
+    kani::cover!(pc == 6);
+    core::mem::forget(ins);
+}
+
 #[cfg(test)]
 mod playback {
     use super::*;
